@@ -132,6 +132,7 @@ func (root *Root) getObjType(gqlType string) (obj *Object, input *Input, err err
 }
 
 func (root *Root) assureType(sample interface{}, obj *Object) error {
+	verifYield("assureType")
 	meta := reflect.TypeOf(sample)
 	obj.mu.Lock()
 	defer obj.mu.Unlock()
@@ -154,6 +155,7 @@ func (root *Root) regInput(sample interface{}, input *Input) error {
 }
 
 func (root *Root) getReflectType(meta reflect.Type) (obj Type) {
+	verifYield("getReflectType")
 	for _, t := range root.types.list {
 		o, _ := t.(*Object)
 		if o != nil {
@@ -198,6 +200,7 @@ func (root *Root) RegisterField(gqlType, gqlField, goField string, args ...strin
 }
 
 func (root *Root) regField(obj *Object, fd *FieldDef, goField string, args ...string) (err error) {
+	verifYield("regField")
 	obj.mu.Lock()
 	meta := obj.meta
 	obj.mu.Unlock()
@@ -1164,6 +1167,7 @@ func (root *Root) Resolve(field *Field, args map[string]interface{}) (result int
 
 func (root *Root) subscribe(sub *Subscription) {
 	sub.prep(root)
+	verifYield("subscribe")
 	root.subLock.Lock()
 	root.subscriptions = append(root.subscriptions, sub)
 	root.subLock.Unlock()
@@ -1171,6 +1175,7 @@ func (root *Root) subscribe(sub *Subscription) {
 
 // Unsubscribe from an event stream.
 func (root *Root) Unsubscribe(id string) (cnt int) {
+	verifYield("unsubscribe")
 	root.subLock.Lock()
 	for i := len(root.subscriptions) - 1; 0 <= i; i-- {
 		s := root.subscriptions[i]
@@ -1192,6 +1197,7 @@ func (root *Root) AddEvent(id string, event interface{}) (cnt int, err error) {
 	vars := map[string]interface{}{}
 	var ea []error
 	var failed []*Subscription
+	verifYield("publish")
 	root.subLock.Lock()
 	for _, s := range root.subscriptions {
 		if s.sub.Match(id) {
@@ -1208,6 +1214,7 @@ func (root *Root) AddEvent(id string, event interface{}) (cnt int, err error) {
 	if 0 < len(ea) {
 		err = Errors(ea)
 	}
+	verifYield("publish-cleanup")
 	root.subLock.Lock()
 	for _, f := range failed {
 		for i := len(root.subscriptions) - 1; 0 <= i; i-- {
